@@ -39,6 +39,8 @@ def units(tier):
     add("W handle0-cancel (child swallows and returns)", [("W", "task"), ("R", "task")], env=("handle0",), J=1)
     add("X handle0-cancel (child replaces the cancellation)", [("X", "task")], env=("handle0",), J=1)
     add("no children, external spawn", [], env=("spawn",), J=3)
+    add("no children, external spawn + group-cancel (both may fall into the exit checkpoint)", [], env=("spawn", "group"), J=3)
+    add("no children, external spawn + outer-cancel", [], env=("spawn", "outer"), J=3)
     add("R+C outer-cancel eager", [("R", "task"), ("C", "soon")], env=("outer",), eager=True)
     add("R, external spawn", [("R", "soon")], env=("spawn",), J=3)
     add("B, external spawn + group-cancel", [("B", "task")], env=("spawn", "group"), J=2)
